@@ -2,7 +2,10 @@ import ApolloModel.Proofs.ParserLossless
 import ApolloModel.Proofs.ParserType10
 import ApolloModel.Proofs.ParserValue9
 import ApolloModel.Proofs.ParserSel9
+import ApolloModel.Proofs.ParserComplete5
 import ApolloModel.Proofs.ParserDef19
+import ApolloModel.Proofs.ParserTermination8
+import ApolloModel.Proofs.ParserDoc5
 /-
 C05 — Syntax acceptance matches the GraphQL grammar.
 
@@ -388,6 +391,192 @@ theorem fragment_definition_accepted_is_in_grammar (n : Nat) (s s' : PState) (w 
       (sig cs).map astOfV = x.map some ∧ IsFragment x :=
   (Parse.acc_fragmentDefinition n).sound s s' () w he hkw h hnd
 
+/-! ### completeness (growth 5): everything in the value / arguments / directives grammar is accepted -/
+
+/-- **`value.rs::value`, acceptance is complete.**  Take ANY value `v` of the grammar (`valueOk`: enum values
+    are names other than `true`/`false`/`null`; under `Const` no variable occurs) whose list/object nesting
+    depth `vdepth v` is within the remaining recursion budget `recLimit − recCur`.  Let the queue of `s` start
+    with ANY spelling `c` of `tValue v` — the significant tokens of `c` are `tValue v`, with arbitrary ignored
+    tokens (whitespace, commas, comments) interleaved after each of them — followed by a significant token
+    `q0`.  Then every finished run of `value` (any fuel, `pop_on_error` or not; runs exist whenever the fuel is
+    sufficient: C01 `value_grammar_terminates`) consumed exactly `c`, left `q0 :: rest`, and reported NO error
+    (`Doomed s' ↔ Doomed s`).  With `value_accept_sound`: on such inputs acceptance = grammar. -/
+theorem value_accept_complete (n : Nat) (isConst popOnError : Bool) (s s' : PState) (v : Ast.Value)
+    (c : List Tok) (q0 : Tok) (rest : List Tok) (w : TW s)
+    (hok : valueOk isConst v = true) (hdepth : vdepth v ≤ s.recLimit - s.recCur)
+    (hspell : (sig c).map astOfV = (Ast.tValue v).map some)
+    (hhead : ∀ hd tl, c = hd :: tl → isIgnoredKind hd.kind = false)
+    (ht : Toks s = c ++ q0 :: rest) (hq : isIgnoredKind q0.kind = false)
+    (h : (value n isConst popOnError).run s = .ok () s') :
+    Toks s' = q0 :: rest ∧ (Doomed s' ↔ Doomed s) ∧ s'.recCur = s.recCur := by
+  obtain ⟨e, t, _⟩ := Parse.value_complete n isConst popOnError s s' () c _ q0 rest w h ⟨v, rfl, hok, hdepth⟩
+    ⟨hspell, hhead⟩ ht hq trivial trivial
+  exact ⟨t, e.doom, e.recCur⟩
+
+/-- in value position EVERY Name token is accepted (`true`/`false` → BooleanValue, `null` → NullValue, anything
+    else → EnumValue): the model is exactly as liberal as the grammar here, no name is rejected. -/
+theorem name_in_value_position_accepted (s s' : PState) (nm : Ast.Str) (c : List Tok) (q0 : Tok) (rest : List Tok) (w : TW s)
+    (hspell : (sig c).map astOfV = [some (.name nm)]) (hhead : ∀ hd tl, c = hd :: tl → isIgnoredKind hd.kind = false)
+    (ht : Toks s = c ++ q0 :: rest) (hq : isIgnoredKind q0.kind = false)
+    (h : (peekToken >>= nameValueBranch).run s = .ok () s') :
+    Toks s' = q0 :: rest ∧ (Doomed s' ↔ Doomed s) := by
+  obtain ⟨e, t, _⟩ := Parse.cmp_nameValue s s' () c _ q0 rest w h ⟨nm, rfl⟩ ⟨hspell, hhead⟩ ht hq trivial trivial
+  exact ⟨t, e.doom⟩
+
+-- the two guards are exact (kernel-evaluated on the model): a variable under `Const` is an error; the
+-- depth bound is tight (`[[1]]` has depth 2: rejected with budget 1, accepted with budget 2; depth 0 needs none)
+example : (match (value 9 true false).run (initState "$x".toList none 500) with | .ok _ s => s.errors.length | _ => 0) = 1 := by decide +kernel
+example : (match (value 9 false false).run (initState "$x".toList none 500) with | .ok _ s => s.errors.length | _ => 9) = 0 := by decide +kernel
+example : (match (value 9 false false).run (initState "[[1]]".toList none 1) with | .ok _ s => s.errors.length | _ => 0) = 1 := by decide +kernel
+example : (match (value 9 false false).run (initState "[[1]]".toList none 2) with | .ok _ s => s.errors.length | _ => 9) = 0 := by decide +kernel
+example : (match (value 9 false false).run (initState "[]".toList none 0) with | .ok _ s => s.errors.length | _ => 9) = 0 := by decide +kernel
+
+/-- **`argument.rs::arguments`, acceptance is complete**: every non-empty `( Name : Value … )` whose values are
+    well formed and within the budget (an argument value is NOT under `recursion_limit`, so the bound is
+    `vdepth ≤ recLimit − recCur` itself), in any spelling, followed by any significant token. -/
+theorem arguments_accept_complete (n : Nat) (isConst : Bool) (s s' : PState) (args : List (Ast.Str × Ast.Value))
+    (c : List Tok) (q0 : Tok) (rest : List Tok) (w : TW s) (hne : args ≠ [])
+    (hfit : ∀ a ∈ args, valueOk isConst a.2 = true ∧ vdepth a.2 ≤ s.recLimit - s.recCur)
+    (hspell : (sig c).map astOfV = (Ast.tArguments args).map some)
+    (hhead : ∀ hd tl, c = hd :: tl → isIgnoredKind hd.kind = false)
+    (ht : Toks s = c ++ q0 :: rest) (hq : isIgnoredKind q0.kind = false)
+    (h : (arguments n isConst).run s = .ok () s') :
+    Toks s' = q0 :: rest ∧ (Doomed s' ↔ Doomed s) := by
+  obtain ⟨e, t, _⟩ := Parse.arguments_complete n isConst s s' () c _ q0 rest w h ⟨args, hne, rfl, hfit⟩
+    ⟨hspell, hhead⟩ ht hq trivial trivial
+  exact ⟨t, e.doom⟩
+
+/-- **`directive.rs::directives`, acceptance is complete**: every (possibly empty) list `@ Name Arguments? …`
+    in any spelling, PROVIDED the following significant token is neither `@` (it would be one more directive)
+    nor `(` (after a directive without arguments it would be taken as its argument list) — in every grammar
+    position of `Directives` the follow token is one of `{ } ) | = Name String $ ... EOF`, so this holds. -/
+theorem directives_accept_complete (n : Nat) (isConst : Bool) (s s' : PState) (ds : List Ast.Directive)
+    (c : List Tok) (q0 : Tok) (rest : List Tok) (w : TW s)
+    (hfit : ∀ d ∈ ds, ∀ a ∈ d.args, valueOk isConst a.2 = true ∧ vdepth a.2 ≤ s.recLimit - s.recCur)
+    (hspell : (sig c).map astOfV = (Ast.tDirectives ds).map some)
+    (hhead : ∀ hd tl, c = hd :: tl → isIgnoredKind hd.kind = false)
+    (ht : Toks s = c ++ q0 :: rest) (hq : isIgnoredKind q0.kind = false)
+    (hfollow : q0.kind ≠ .at ∧ q0.kind ≠ .lParen)
+    (h : (directives n isConst).run s = .ok () s') :
+    Toks s' = q0 :: rest ∧ (Doomed s' ↔ Doomed s) := by
+  obtain ⟨e, t, _⟩ := Parse.directives_complete n isConst s s' () c _ q0 rest w h ⟨ds, rfl, hfit⟩
+    ⟨hspell, hhead⟩ ht hq hfollow trivial
+  exact ⟨t, e.doom⟩
+
 end Executable
+
+/-! ## Document level: `document()` and `Parser::parse` — accepted ⊆ grammar, for whole documents
+
+The top level of the grammar — grammar/document.rs (`document`, its `peek_while` loop, the dispatch on the token kind,
+`select_definition` with the `peek_data` / `peek_data_n(2)` look-ahead, `extensions`, the `err_and_pop` branches, the
+"expected at least one definition" check) and the entry point `Parser::parse` — is proved in Proofs/ParserDoc1–3.lean
+from the structure `Parse.DefLemmas n`: one hypothesis per definition parser (13 definitions counting the four
+keywords of operations, 7 extensions), each "entered the way the dispatcher enters it, on a lexer queue, a run without
+error consumed the tokens of ONE definition (`Parse.IsDef`) and left the rest of the queue untouched".
+Proofs/ParserDoc4.lean instantiates `DefLemmas` from the per-production theorems of the sections above
+(`definition_parsers_sound`), so everything below is unconditional.
+
+`Parse.DocItem` is one definition as accepted, with the way it is written:
+  * `exec oe d`   an operation or fragment definition, tokens `tDefinition oe d` (C08's printer; `oe = true`: the
+                  shorthand form `{ … }` when it applies) — the shorthand query is accepted at ANY position;
+  * `loose l`     a type-system definition or extension, tokens `LooseDef.toks l` = the printer's tokens up to a leading
+                  `&` / `|` and — KNOWN FINDING accepts-root-operation-without-type — a root operation type without name;
+  * `descFragment` — KNOWN FINDING accepts-description-before-fragment — `"d" fragment on T Directives? SelectionSet`.
+-/
+section Document
+
+/-- the modular form: `document_accept_sound` from ANY proof of the per-definition hypotheses -/
+theorem document_accept_sound_from (L : ∀ n, Parse.DefLemmas n) (rl : Nat) (src : Parse.Str) (root : Elem)
+    (h : (parse .document none rl src).outcome = .tree root) (herr : (parse .document none rl src).errors = []) :
+    Parse.LexClean src ∧ ∃ ts x e, Parse.sig (Parse.srcToks src) = ts ++ [e] ∧ e.kind = .eof ∧
+      ts.map Parse.astOfV = x.map some ∧ Parse.IsDocumentToks x :=
+  Parse.document_accept_sound L rl src root h herr
+
+/-- the per-definition hypotheses hold (executable definitions: Proofs/ParserSel9.lean; type system:
+    Proofs/ParserDef15–16.lean; `fragment_definition` entered on a description: Proofs/ParserDoc4.lean) -/
+theorem definition_parsers_sound (n : Nat) : Parse.DefLemmas n := Parse.defLemmas n
+
+/-- **The dispatcher, one definition.**  `document()`'s closure on a current token `t` other than EOF, in a lexer
+    queue: a run without error consumed exactly the tokens of ONE accepted definition; the rest is untouched. -/
+theorem document_dispatch_accept_sound (n : Nat) (s s' : PState) (t : Parse.Tok) (rest : List Parse.Tok) (w : Parse.TW s)
+    (he : Parse.EofEnd s) (hl : Parse.LexQ (Parse.Toks s)) (hc : s.current = some t) (ht : Parse.Toks s = t :: rest)
+    (h : (documentDispatch n t.kind).run s = .ok () s') (hnd : ¬ Parse.Doomed s') :
+    ∃ cs, Parse.Toks s = cs ++ Parse.Toks s' ∧ Parse.NoEof cs ∧ Parse.EofEnd s' ∧
+      ∃ i : Parse.DocItem, i.ok ∧ (Parse.sig cs).map Parse.astOfV = i.toks.map some := by
+  obtain ⟨cs, a1, a2, a3, a4⟩ := Parse.documentDispatch_sound (Parse.defLemmas n) s s' t rest w he hl hc ht h hnd
+  rcases a4 with ⟨x, hx, hd⟩ | hf
+  · obtain ⟨i, hok, rfl⟩ := Parse.isDef_item x hd
+    exact ⟨cs, a1, a2, a3, i, hok, hx⟩
+  · exact absurd hf id
+
+/-- **document_accepted_is_in_grammar.**  If `Parser::parse` (model; no token limit, any recursion limit) reports no
+    error, then the source lexes without error and its significant tokens are `docToks its ++ [EOF]` for a NON-EMPTY
+    list `its` of accepted definitions: a Document of the grammar — `Definition+`, the shorthand query at any
+    position — up to the three documented liberties.  (`parse` always returns a tree: C01 `parse_terminates`,
+    `parse_no_panic`.) -/
+theorem document_accepted_is_in_grammar (rl : Nat) (src : Parse.Str) (herr : (parse .document none rl src).errors = []) :
+    Parse.LexClean src ∧ ∃ (ts : List Parse.Tok) (e : Parse.Tok) (its : List Parse.DocItem),
+      Parse.sig (Parse.srcToks src) = ts ++ [e] ∧ e.kind = .eof ∧ its ≠ [] ∧ (∀ i ∈ its, i.ok) ∧
+      ts.map Parse.astOfV = (Parse.docToks its).map some := by
+  cases ho : (parse .document none rl src).outcome with
+  | panic m => exact absurd ho (Parse.parse_no_panic _ _ _ _ m)
+  | abort w => exact absurd ho (Parse.parse_terminates _ _ _ _ w)
+  | tree root =>
+    obtain ⟨hl, ts, e, its, h1, h2, h3, h4, h5, _⟩ := Parse.document_accepted_items rl src root ho herr
+    exact ⟨hl, ts, e, its, h1, h2, h3, h4, h5⟩
+
+/-- **The strict corollary and the link to C08's reference parser.**  For the list `its` of the previous theorem: if no
+    definition uses one of the three liberties (`strictItems its = some items`: no leading separator, every root
+    operation type named, no description in front of `fragment on`), the significant tokens are
+    `itemsToks items` — every definition printed by C08's `tDefinition`, long or shorthand form, `items ≠ []` — and
+    C08's reference parser `pDocument` accepts that same token list and returns exactly the definitions of `items`,
+    given (a) their well-formedness `wfDefinition` (enum values other than `true/false/null`, spreads not named
+    `on`, … — facts the per-production theorems do not export, so it stays a hypothesis) and (b) `FollowOk items`:
+    a shorthand query directly follows only a definition that always ends in `}` (`followOk_of_closed`: automatic
+    for executable documents; `followOk_tDocument`: automatic for the printer's shape).  (b) cannot be dropped for
+    an arbitrary decomposition: `type T` ++ `{ a }` is also the single definition `type T { a }`. -/
+theorem document_accepted_reference_parser (rl : Nat) (src : Parse.Str) (herr : (parse .document none rl src).errors = []) :
+    ∃ (ts : List Parse.Tok) (e : Parse.Tok) (its : List Parse.DocItem),
+      Parse.sig (Parse.srcToks src) = ts ++ [e] ∧ e.kind = .eof ∧ ts.map Parse.astOfV = (Parse.docToks its).map some ∧
+      ∀ items, Parse.strictItems its = some items →
+        items ≠ [] ∧ Parse.docToks its = Ast.itemsToks items ∧
+        ((∀ i ∈ items, Ast.wfDefinition i.2 = true) → Ast.FollowOk items →
+          ∀ f, Ast.szDefinitions (items.map (·.2)) ≤ f → Ast.pDocument f (Ast.itemsToks items) = some (items.map (·.2))) := by
+  cases ho : (parse .document none rl src).outcome with
+  | panic m => exact absurd ho (Parse.parse_no_panic _ _ _ _ m)
+  | abort w => exact absurd ho (Parse.parse_terminates _ _ _ _ w)
+  | tree root =>
+    obtain ⟨_, ts, e, its, h1, h2, _, _, h5, h6⟩ := Parse.document_accepted_items rl src root ho herr
+    exact ⟨ts, e, its, h1, h2, h5, h6⟩
+
+/-- token lists of the form `itemsToks items` and the reference parser, without the parser model -/
+theorem isDocument_reference_parser (items : List Ast.Item) (f : Nat) (hne : items ≠ [])
+    (h : ∀ i ∈ items, Ast.wfDefinition i.2 = true) (hs : Ast.szDefinitions (items.map (·.2)) ≤ f) (hf : Ast.FollowOk items) :
+    Ast.pDocument f (Ast.itemsToks items) = some (items.map (·.2)) :=
+  Ast.items_document_roundtrip items f hne h hs hf
+
+/-- executable documents: every decomposition satisfies `FollowOk` -/
+theorem followOk_of_closed (items : List Ast.Item) (h : ∀ i ∈ items, Ast.closed i.2 = true) : Ast.FollowOk items :=
+  Ast.followOk_of_closed items h
+
+/-- the printer's shape (`tDocument oe (d :: r)`, shorthand only in front) is `itemsToks` of a `FollowOk` list -/
+theorem followOk_tDocument (oe : Bool) (d : Ast.Definition) (r : List Ast.Definition) :
+    Ast.tDocument oe (d :: r) = Ast.itemsToks ((oe, d) :: r.map (fun d => (false, d))) ∧
+      Ast.FollowOk ((oe, d) :: r.map (fun d => (false, d))) :=
+  ⟨Ast.tDocument_items oe d r, Ast.followOk_tDocument oe d r⟩
+
+/-- KNOWN FINDING accepts-description-before-fragment (kernel-evaluated on the model; reproduced on the implementation
+    by stream P, harness/src/p05.rs): a description in front of `fragment on T { a }` parses without error, while the
+    same with a fragment name, and a description in front of an operation or an extension, are rejected. -/
+theorem description_before_fragment_accepted :
+    errorFree "\"d\" fragment on T { a }".toList = true ∧ errorFree "\"d\" fragment F on T { a }".toList = false ∧
+    errorFree "\"d\" query { a }".toList = false ∧ errorFree "\"d\" { a }".toList = false ∧
+    errorFree "\"d\" extend type A @d".toList = false := by decide +kernel
+
+/-- the shorthand query is accepted at any position, also after a type-system definition -/
+theorem shorthand_query_anywhere_accepted :
+    errorFree "{ a } { b } type T { c: Int } { d } fragment F on T { e } { f }".toList = true := by decide +kernel
+
+end Document
 
 end Apollo.C05
